@@ -17,6 +17,7 @@ type PythonIdentListener struct {
 
 var currentCodeFile *core_domain.CodeContainer
 var currentDataStruct *core_domain.CodeDataStruct
+var outerDataStructs []*core_domain.CodeDataStruct // classes enclosing currentDataStruct
 var debug = false
 var output io.Writer
 var hasEnterMember = false
@@ -24,6 +25,8 @@ var hasEnterMember = false
 func NewPythonIdentListener(fileName string) *PythonIdentListener {
 	currentCodeFile = &core_domain.CodeContainer{}
 	currentCodeFile.FullName = fileName
+	currentDataStruct = nil
+	outerDataStructs = nil
 	output = os.Stdout
 
 	return &PythonIdentListener{}
@@ -85,13 +88,16 @@ func (s *PythonIdentListener) EnterClassdef(ctx *parser.ClassdefContext) {
 		dataStruct.Annotations = decorators
 	}
 
+	outerDataStructs = append(outerDataStructs, currentDataStruct)
 	currentDataStruct = dataStruct
 }
 
 func (s *PythonIdentListener) ExitClassdef(ctx *parser.ClassdefContext) {
 	hasEnterMember = false
 	currentCodeFile.DataStructures = append(currentCodeFile.DataStructures, *currentDataStruct)
-	currentDataStruct = nil
+	// back to the enclosing class (nil at module level)
+	currentDataStruct = outerDataStructs[len(outerDataStructs)-1]
+	outerDataStructs = outerDataStructs[:len(outerDataStructs)-1]
 }
 
 func (s *PythonIdentListener) EnterFuncdef(ctx *parser.FuncdefContext) {
